@@ -231,7 +231,17 @@ class SimpleLoop(Loop[World]):
                 self._current_world.process(dt)
 
             except SwitchWorld as ex:
-                self.switch(ex.world_handle, ex.clear_current, ex.clear_next)
+                # Callbacks released while a world is entered (e.g.
+                # on_switch_in) may request a switch themselves
+                request = ex
+                while request is not None:
+                    try:
+                        self.switch(request.world_handle,
+                                    request.clear_current,
+                                    request.clear_next)
+                        request = None
+                    except SwitchWorld as nested_request:
+                        request = nested_request
 
     def switch(self, world_handle: Handle[World], clear_current=False,
                clear_next=False):
